@@ -174,6 +174,8 @@ type Spec struct {
 	MaxTrans int64
 	Deadline time.Time
 	Workers  int
+	// RootShard/RootShards split the search below the initial state over processes (see bfs.Engine).
+	RootShard, RootShards int
 	// Extra runs after qmodel accepted the transition; pre is the model before the operation.
 	Extra func(pre, post *qmodel.Model, op qmodel.Op, obs *qmodel.Obs) string
 	// Skip prunes successor states that are outside the property's quantifier.
@@ -255,6 +257,7 @@ func Run(spec Spec) *Result {
 
 	eng := &bfs.Engine[*qmodel.Model, qmodel.Op]{
 		Name: spec.Name, Workers: spec.Workers, MaxDepth: spec.Depth, MaxTrans: spec.MaxTrans, Deadline: spec.Deadline,
+		RootShard: spec.RootShard, RootShards: spec.RootShards,
 		Init: func() *qmodel.Model { return init }, InitKey: initKey, OpName: opName,
 		Enabled: func(m *qmodel.Model, hist []qmodel.Op) []qmodel.Op {
 			return spec.Alpha.Ops(m, handlesOf(m))
@@ -370,6 +373,9 @@ func Report(r *runner.Run, spec Spec, res *Result) {
 	r.Add("transitions", res.Transitions)
 	r.Add("traces_validated_against_impl", res.Transitions)
 	label := fmt.Sprintf("%s/%s/%s", spec.Name, spec.Backend, res.ConfigLabel)
+	if spec.RootShards > 1 {
+		label += fmt.Sprintf("/shard%d-of-%d", spec.RootShard, spec.RootShards)
+	}
 	r.Set("run:"+label, map[string]any{
 		"states": res.States, "transitions": res.Transitions, "depth_completed": res.DepthCompleted, "depth_target": spec.Depth,
 		"exhaustive": res.Exhaustive, "cap_hit": res.CapHit, "per_depth_new_states": res.PerDepth,
